@@ -49,7 +49,12 @@ def check(r):
         for f in ("recurring", "days", "start_time", "end_time", "duration"):
             if getattr(s, f) != rec[f]:
                 ok = False
-    return {"ok": ok, "outcome": sorted((s.schedule_id, s.recurring, sorted(d.name for d in s.days), s.start_time, s.end_time, s.duration) for s in got),
+    out_repr = sorted((s.schedule_id, s.recurring, sorted(d.name for d in s.days), s.start_time, s.end_time, s.duration) for s in got)
+    # a caller may edit what it was given: the next listing must still decode every record from its own bytes
+    for s in got:
+        if isinstance(s.days, set):
+            s.days.symmetric_difference_update({Days.MONDAY, Days.SUNDAY})
+    return {"ok": ok, "outcome": out_repr,
             "expected": sorted((x["schedule_id"], x["recurring"], sorted(d.name for d in x["days"]), x["start_time"], x["end_time"], x["duration"]) for x in exp)}
 
 
